@@ -389,3 +389,52 @@ def finish(ctx):
         sys.exit(1)
     ctx.log(f"OK ({round(time.time() - ctx.t0, 1)} s)")
     sys.exit(0)
+
+
+# ------------------------------------------------------------------ evaluating the model inside Coq
+
+def coq_string(s):
+    return '"' + s.replace('"', '""') + '"'
+
+
+def coq_eval_strings(ctx, preamble, terms, shard_size=150, timeout=1200, tag="cases"):
+    """Evaluate Coq terms of type `string` with vm_compute inside coqc.
+    preamble: vernacular (Require Imports, Open Scope ...); terms: list of (id, term_text).
+    Returns dict id -> python string ("<<COQ-ERROR ...>>" for a shard that failed)."""
+    if not terms:
+        return {}
+    shards = [terms[i:i + shard_size] for i in range(0, len(terms), shard_size)]
+    files = []
+    for si, sh in enumerate(shards):
+        p = os.path.join(ctx.work, f"{tag}_{si}.v")
+        with open(p, "w") as f:
+            f.write(preamble + "\nSet Printing Width 100000000.\nSet Printing Depth 100000000.\n")
+            for k, (cid, term) in enumerate(sh):
+                f.write(f"Definition o{k} : String.string := Eval vm_compute in ({term}).\nPrint o{k}.\n")
+        files.append((p, sh))
+
+    def one(item):
+        p, sh = item
+        rc, out = run(["coqc", "-noglob", "-Q", os.path.join(COQ, "theories"), "DD", "-Q", os.path.join(COQ, "gen"), "DDGen", p],
+                      cwd=ctx.work, timeout=timeout)
+        return rc, out
+
+    res = {}
+    with concurrent.futures.ThreadPoolExecutor(max_workers=NCPU) as ex:
+        for (p, sh), (rc, out) in zip(files, ex.map(one, files)):
+            got = {}
+            for m in re.finditer(r'^o(\d+) = "((?:[^"]|"")*)"\s*\n\s*: String\.string|^o(\d+) = "((?:[^"]|"")*)"\s*\n\s*: string', out, flags=re.M):
+                idx = int(m.group(1) if m.group(1) is not None else m.group(3))
+                body = m.group(2) if m.group(2) is not None else m.group(4)
+                got[idx] = body.replace('""', '"')
+            for k, (cid, term) in enumerate(sh):
+                if k in got:
+                    res[cid] = got[k]
+                else:
+                    res[cid] = "<<COQ-ERROR rc=%d %s>>" % (rc, out[-400:].replace("\n", " "))
+            for ext in (".v", ".vo", ".vok", ".vos", ".glob"):
+                try:
+                    os.remove(p[:-2] + ext)
+                except OSError:
+                    pass
+    return res
